@@ -120,6 +120,93 @@ PROPS["C14"] = dict(
     floor=100,
     stages=[Stage("c14", variant="rel"), Stage("c14", variant="chk", args=["--maxlen", "3000"])]
            + [Stage("c14", variant="par", threads=t, tiers=("quick", "thorough") if t in C14_THREADS_QUICK else ("thorough",)) for t in C14_THREADS_ALL]
-           + [Stage("c14", kind="tsan", threads=8, args=["--maxlen", "9000"], timeout=(900, 1800)),
-              Stage("c14", kind="miri", args=["--maxlen", "40"], miri_flags=MIRI_SERIAL, timeout=(900, 1800))],
+           + [Stage("c14", kind="tsan", threads=8, args=["--maxlen", "4200"], timeout=(900, 1800)),
+              Stage("c14", kind="miri", args=["--maxlen", "20"], miri_flags=MIRI_SERIAL, timeout=(900, 1800))],
+)
+
+
+def compare_digests(prop, reports, seed, tier):
+    """offline checker: every case digest emitted by several runs (serial build, concurrent build at
+    several thread counts, ...) must be identical across the runs that emitted it"""
+    seen = {}
+    viol = []
+    runs = 0
+    for st, rep in reports:
+        d = (rep.get("extra") or {}).get("digests")
+        if not d:
+            continue
+        runs += 1
+        label = st.label() + ("/t%s" % st.threads if st.threads else "")
+        for k, v in d.items():
+            if k in seen and seen[k][1] != v:
+                viol.append({"sig": "output-differs-across-builds-or-threads|%s" % k.split("/")[0] + "|" + k.split("/")[1],
+                             "count": 1, "examples": [{"case": k, "run_a": seen[k][0], "run_b": label}]})
+            seen.setdefault(k, (label, v))
+        rep["extra"].pop("digests", None)
+    return {"evaluations": len(seen) * max(runs - 1, 0), "distinct_nontrivial": 0, "distinct_hashes": [], "samples": [],
+            "counters": {"digest_keys_compared": len(seen), "runs_compared": runs}, "extra": {}, "violations": viol,
+            "inconclusive": [], "wall_s": 0.0, "rule": ""}
+
+
+PAR_THREADS_QUICK = (3, 16)
+PAR_THREADS_ALL = (1, 2, 3, 4, 5, 7, 8, 16)
+PROPS["C12"] = dict(
+    level="exploration",
+    rule="sizes 2^1..2^13 (thorough 2^16) x 7 coefficient types x blowups {1..64} x offsets {generator,1,random,p-1}: "
+         "evaluate_poly, evaluate_poly_with_offset, serial_fft vs naive evaluation over the offset subgroup in natural "
+         "order (all points for n <= 1024 (4096), 69 spot points above), interpolate_poly(_with_offset) inverts, "
+         "infer_degree on degrees {0,1,n/2,n-1}, twiddles/permute_index; serial, overflow-check, concurrent builds at "
+         "3 (8) thread counts; output digests compared across all runs; TSan; Miri serial and concurrent; "
+         "distinct = (coefficient type, size)",
+    assumptions=["2^32-point domains (f64 limit) are not reachable in memory/time here; largest size is 2^17 points",
+                 "Miri on the concurrent build runs without borrow tracking (DESIGN.md section 2)"],
+    floor=40,
+    post=compare_digests,
+    stages=[Stage("c12", variant="rel"), Stage("c12", variant="chk", args=["--maxk", "10"])]
+           + [Stage("c12", variant="par", threads=t, tiers=("quick", "thorough") if t in PAR_THREADS_QUICK else ("thorough",)) for t in PAR_THREADS_ALL]
+           + [Stage("c12", kind="tsan", threads=8, args=["--maxk", "11"], timeout=(900, 1800)),
+              Stage("c12", kind="miri", args=["--maxk", "4"], miri_flags=MIRI_SERIAL, timeout=(1800, 3600), tiers=("thorough",)),
+              Stage("c12", kind="miri", variant="par", args=["--maxk", "10", "--full", "16"], miri_flags=MIRI_PAR, env={"FEATURES": "concurrent"},
+                    threads=4, timeout=(1800, 3600), tiers=("thorough",))],
+)
+
+PROPS["C15"] = dict(
+    level="exploration",
+    rule="Blake3_256/Blake3_192/Sha3_256 over f62/f64/f128: hash on every length 0..300 and around 1K/2K/64K; merge; merge_many "
+         "on 0..40 digests; merge_with_int at 32-bit limb boundaries; hash_elements on 0..43 and around 64/128/256/1000 "
+         "elements of base/quadratic/cubic types with non-canonical internal representations; expected = blake3 / sha3 "
+         "crates applied to the byte layout the monitor assembles from canonical values (192-bit: first 24 bytes); "
+         "hash_elements of the same values in fresh representations must be equal; distinct = (hasher, op, size/content)",
+    assumptions=["the blake3 and sha3 crates (the same versions the repository locks) are the primitives' reference"],
+    floor=500,
+    stages=[Stage("c15", variant="rel"), Stage("c15", variant="chk"),
+            Stage("c15", kind="miri", args=["--n", "1"], miri_flags=MIRI_SERIAL, timeout=(900, 1800), tiers=("thorough",))],
+)
+
+PROPS["C16"] = dict(
+    level="exploration",
+    rule="Rescue permutation of Rp64_256, RpJive64_256 (public) and Rp62_248 (verif hook) on boundary-biased states vs a "
+         "reference round function (S-box by modpow, inverse S-box exponent computed as alpha^-1 mod p-1, MDS as matrix "
+         "product, constants read from the code and pinned by golden digests; circulant / MDS*INV_MDS=I checks); hash, "
+         "hash_elements (base/quadratic/cubic), merge, merge_many, merge_with_int at integer boundaries vs the "
+         "documented sponge, padding, capacity and Jive rules; merge == hash of the 8 elements for the sponge variants; "
+         "distinct = distinct states / inputs",
+    assumptions=["round constants and MDS are taken from the code and pinned by FNV digests recorded from the pinned tree "
+                 "(they cannot be regenerated here)",
+                 "RpJive64_256 completes a final partial block by SETTING the remaining rate elements to 1,0,..,0 (as its "
+                 "inline documentation shows); the reference follows that rule"],
+    floor=500,
+    stages=[Stage("c16", variant="rel"), Stage("c16", variant="chk", args=["--n", "600"]),
+            Stage("c16", kind="miri", args=["--n", "6"], miri_flags=MIRI_SERIAL, timeout=(900, 1800), tiers=("thorough",))],
+)
+
+PROPS["C17"] = dict(
+    level="exploration",
+    rule="per hasher (6): all prefixes of a 60..140-byte string; s||0^k and s||01||0^k for |s| around multiples of 7/28/56; "
+         "element lists with trailing zero or ONE elements around the rate (base and quadratic); different splits of a "
+         "digest list and zero-digest extensions; merge_with_int(seed, x + k*p) for every k below 2^64; all digests in a "
+         "family must be pairwise different; evaluation = one family member; distinct = families",
+    assumptions=["a collision among <= 200 inputs of a sound 192..256-bit hash has probability < 2^-170, so a report is never a chance event"],
+    floor=20,
+    stages=[Stage("c17", variant="rel"), Stage("c17", variant="chk", args=["--n", "2"])],
 )
